@@ -16,7 +16,7 @@ Open Scope list_scope.
      before its collector id).
    Hence every call site's id is handled by exactly one case, which runs the routine generated for
    the very same class member, overload and role, and no case or routine lacks a call site. *)
-Theorem C05_dispatch_table : forall c content l, module_slots c content = Some l ->
+Theorem C05_dispatch_table : forall c top content l, module_slots c top content = Some l ->
   let t := table_from 0 l in
   map id_of t = seq 0 (length l) /\
   cases l = map (fun e => (id_of e, name_of e)) t /\
@@ -26,8 +26,8 @@ Proof. exact dispatch_table. Qed.
 Print Assumptions C05_dispatch_table.
 
 (* the invariant behind it: a reserved (up-cast) id is always followed by its collector *)
-Theorem C05_reserved_followed_by_collector : forall c content l,
-  module_slots c content = Some l -> wf_slots l = true.
+Theorem C05_reserved_followed_by_collector : forall c top content l,
+  module_slots c top content = Some l -> wf_slots l = true.
 Proof. exact module_slots_wf. Qed.
 Print Assumptions C05_reserved_followed_by_collector.
 
@@ -42,7 +42,7 @@ Definition vclass (name : string) (virt : bool) : iclass :=
 (* non-vacuous: a virtual class followed by a plain one; the virtual class's default-argument
    constructor expands to two overloads, ids shift accordingly *)
 Example C05_nonvacuous :
-  option_map cases (module_slots {| m_module := "m"; m_ignore := []; m_boost := false |}
+  option_map cases (module_slots {| m_module := "m"; m_ignore := []; m_boost := false |} []
                                  [IClass (vclass "A" true); IClass (vclass "B" false)])
   = Some [(0, "A_collectorInsertAndMakeBase_0"); (1, "A_upcastFromVoid_1"); (2, "A_constructor_2");
           (3, "A_constructor_3"); (4, "A_deconstructor_4"); (5, "B_collectorInsertAndMakeBase_5");
